@@ -270,7 +270,18 @@ fn telling_param(rng: &mut Rng, typ: u8, unsigned: bool) -> Param {
         for i in 0..w {
             x |= ((0x11 * (i as u64 + 1) + rng.below(8)) & 0x7f) << (8 * i);
         }
-        *v = x as i128;
+        // half of the values have the top bit set: signed and unsigned decoding then differ
+        let top = rng.bool();
+        if top {
+            x |= 0x80 << (8 * (w - 1));
+        }
+        *v = if unsigned || !top {
+            x as i128
+        } else {
+            // the same bit pattern, as the negative number a signed column holds
+            let shift = 64 - 8 * w as u32;
+            (((x << shift) as i64) >> shift) as i128
+        };
     }
     if let Some(PVal::Bytes(b)) = &mut p.value {
         if b.is_empty() {
@@ -304,7 +315,18 @@ pub fn run_c16(ctx: &Ctx) -> Report {
                 pattern.push_str(&format!("{}P ", k));
             }
             let rebind = bound[k].is_none() || rng.bool();
-            let tys: Vec<(u8, bool)> = if rebind { (0..counts[k]).map(|_| (*rng.pick(&types), rng.bool())).collect() } else { bound[k].clone().unwrap() };
+            let tys: Vec<(u8, bool)> = if !rebind {
+                bound[k].clone().unwrap()
+            } else if bound[k].is_some() && rng.chance(1, 3) {
+                // a rebind that keeps every type code and only flips signedness flags
+                rep.counters.inc("flag_only_rebinds");
+                bound[k].clone().unwrap().into_iter().map(|(t, u)| if rng.bool() { (t, !u) } else { (t, u) }).collect()
+            } else if rng.chance(1, 4) {
+                // integer-only parameter lists make flag flips observable
+                (0..counts[k]).map(|_| (*rng.pick(&INT_TYPES), rng.bool())).collect()
+            } else {
+                (0..counts[k]).map(|_| (*rng.pick(&types), rng.bool())).collect()
+            };
             let params: Vec<Param> = tys
                 .iter()
                 .map(|&(t, u)| {
@@ -345,6 +367,7 @@ pub fn run_c16(ctx: &Ctx) -> Report {
         rep.require("reuse_executions", 100);
         rep.require("rebind_executions", 100);
         rep.require("histories_interleaving_statements", 100);
+        rep.require("flag_only_rebinds", 100);
     }
     rep
 }
